@@ -9,10 +9,10 @@ import (
 
 func init() {
 	register(&propDef{
-		ID:    "C11",
-		Level: "other",
+		ID:      "C11",
+		Level:   "other",
 		Explain: "Certificate store and sources, decided structurally: (A1) Store.SetCertificates builds the name index before the atomic publish and nothing writes the set afterwards; (A2) the GetCertificate closure loads the store once per handshake and getCertificate works on its parameter only (no handshake sees a mixture of two sets); (M1) in getCertificate every return of the first certificate as fallback is dominated by the !strictMatch edge and the strict miss returns (nil, nil); (M2) every lookup in the name index uses a key derived from strings.ToLower(ServerName) (trailing dots trimmed), wildcard candidates included; (L1) every cycle of every condition-less loop in package cert is paced (sleep, channel operation or an advancing Consul blocking query) — a source delivering unusable material cannot spin; (L2) no send on a certificates channel is reachable from the error edge of the loader that produced the value — unusable material never replaces the working set; (L3) loadCertificates orders its result by the sorted name list, not by map iteration; (L4) TLSConfig starts, before returning, a goroutine that applies every value received from src.Certificates() with SetCertificates. (M3) wildcard candidates keep the label count of the requested name. (M4) every key stored into the name index is known non-empty or an element of the certificate's DNSNames; (M5) SetCertificates reaches the atomic store on every path; Not decided: X.509 name matching beyond the exact / one-label-wildcard index lookup (certificate contents).",
-		Run:   runC11,
+		Run:     runC11,
 		Trusted: []string{"Consul blocking queries with WaitIndex block until the index moves or the wait time passes", "sync/atomic.Value"},
 		Mutants: []mutant{
 			{Name: "empty common name indexed", File: "cert/store.go", Old: "\t\tif len(x509Cert.Subject.CommonName) > 0 {\n\t\t\tc.NameToCertificate[x509Cert.Subject.CommonName] = cert\n\t\t}\n", New: "\t\tc.NameToCertificate[x509Cert.Subject.CommonName] = cert\n", Expect: "C11.M4"},
